@@ -408,6 +408,34 @@ class Interp:
                 a, b = a.get() if isinstance(a, Ref) else a, b.get() if isinstance(b, Ref) else b
             r = self.compare("Eq", a, b)
             return Scalar(r if m.group(2) == "eq" else z3.Not(r), "bool")
+        m = re.fullmatch(r"(?:core::num::<impl )?(u8|u16|u32|u64|i8|i16|i32|i64)>?::(wrapping_add|wrapping_sub|wrapping_mul|wrapping_neg|saturating_add|saturating_sub)", callee)
+        if m:
+            ty, op = m.group(1), m.group(2)
+            a = argv[0]
+            b = argv[1] if len(argv) > 1 else None
+            w, sg = INT_BITS[ty], signed(ty)
+            if op.startswith("wrapping"):
+                t = {"wrapping_add": lambda: a.t + b.t, "wrapping_sub": lambda: a.t - b.t, "wrapping_mul": lambda: a.t * b.t, "wrapping_neg": lambda: -a.t}[op]()
+                return Scalar(t, ty)
+            mx = z3.BitVecVal((1 << (w - 1)) - 1 if sg else (1 << w) - 1, w)
+            mn = z3.BitVecVal(1 << (w - 1) if sg else 0, w)
+            if op == "saturating_add":
+                r = a.t + b.t
+                if sg:
+                    t = z3.If(z3.Not(z3.BVAddNoOverflow(a.t, b.t, True)), mx, z3.If(z3.Not(z3.BVAddNoUnderflow(a.t, b.t)), mn, r))
+                else:
+                    t = z3.If(z3.BVAddNoOverflow(a.t, b.t, False), r, mx)
+            else:
+                r = a.t - b.t
+                if sg:
+                    t = z3.If(z3.Not(z3.BVSubNoOverflow(a.t, b.t)), mx, z3.If(z3.Not(z3.BVSubNoUnderflow(a.t, b.t, True)), mn, r))
+                else:
+                    t = z3.If(z3.ULT(a.t, b.t), mn, r)
+            return Scalar(t, ty)
+        m = re.fullmatch(r"(?:core::f(?:32|64)::<impl )?(f32|f64)>?::to_bits", callee)
+        if m:
+            a = argv[0]
+            return Scalar(z3.fpToIEEEBV(a.t), "u32" if m.group(1) == "f32" else "u64")
         if callee == "<lir::Var as std::clone::Clone>::clone":
             return Opaque("var")
         if callee == "<IrValue as std::clone::Clone>::clone":
